@@ -1,8 +1,8 @@
 SPECIFICATION Spec
 CONSTANTS
  FixOffset = FALSE
- FixPhantom = FALSE
- FixLE = FALSE
+ FixPhantom = TRUE
+ FixLE = TRUE
  FixAlign16 = FALSE
  FixX87 = FALSE
  FixVaArea = FALSE
@@ -12,8 +12,8 @@ CONSTANTS
  Waived = {}
  MaxLen = 16
  RetSel = {"i"}
- ParamSel = {}
+ ParamSel = {"i","l","p","f","d","e","Si","Sc3","Sd","Sff","Sfff","Sld","Sdl","Sdd","Sll","Sif","Udl","S24","Se","Sc16"}
  Emit = FALSE
 VIEW GraphView
-INVARIANTS Agree CountersAgree TypeOK
+INVARIANTS Agree RetAgree CountersAgree TypeOK
 CHECK_DEADLOCK FALSE
